@@ -149,6 +149,10 @@ func VH_C03_resolve_composite() {
 		vReach("invalid")
 		vAssert(err != nil, "C03.resolve.composite.rejects-out-of-bounds")
 	}
+	// whatever the tag says, an accepted list's elements lie inside the segment
+	if err == nil && p.flags.ptrType() == listPtrType {
+		vAssert(invList(p.List()), "C03.resolve.composite.accepted-list-lies-inside-the-segment")
+	}
 }
 
 // capability pointers and unknown "other" pointers
